@@ -79,7 +79,7 @@ theorem streamInv_env (s : S) (e : EnvAct) (h : StreamInv s) : StreamInv (envSte
 theorem mainStep_frame (s : S) :
     (mainStep s).out = s.out ∧ (mainStep s).err = s.err ∧ (mainStep s).outPc = s.outPc ∧
     (mainStep s).errPc = s.errPc ∧ (mainStep s).capOut = s.capOut ∧ (mainStep s).capErr = s.capErr := by
-  unfold mainStep nextJoin enterJoin afterJoins
+  unfold mainStep nextJoin enterJoin afterJoins leaveWait
   cases s.mainPc <;> simp only [] <;> (repeat' split) <;> simp_all
 
 theorem stdinStep_frame (s : S) :
@@ -100,7 +100,9 @@ theorem streamInv_timer (s : S) (h : StreamInv s) : StreamInv (timerStep s) := b
   · exact h
   · split
     · exact h
-    · exact streamInv_kill s h
+    · split
+      · exact h
+      · exact streamInv_kill s h
     · exact h
     · exact h
 
@@ -181,11 +183,13 @@ theorem script_step (s : S) (a : Actor) :
     · simp
     · split
       · simp [S.outScript, S.errScript]
-      · simp only [S.outScript, S.errScript, killEffect]
-        split
-        · simp
-        · simp [(closeIfUnheld_fields s s.out).1, (closeIfUnheld_fields s s.out).2,
-                (closeIfUnheld_fields s s.err).1, (closeIfUnheld_fields s s.err).2]
+      · split
+        · simp [S.outScript, S.errScript]
+        · simp only [S.outScript, S.errScript, killEffect]
+          split
+          · simp
+          · simp [(closeIfUnheld_fields s s.out).1, (closeIfUnheld_fields s s.out).2,
+                  (closeIfUnheld_fields s s.err).1, (closeIfUnheld_fields s s.err).2]
       · simp [S.outScript, S.errScript]
       · simp
 
